@@ -1,4 +1,5 @@
 """C24 - selector.unify / extend / replace / nest / append obey their algebra (relational monitor)."""
+import re
 from .lib import ev, css, selgen as sg
 
 PROP = 'C24'
@@ -26,6 +27,9 @@ FRESH_SIMPLE = ['.zz', '.qq', '#zq', '[data-q]', '[q=z]', ':target', ':focus-wit
 SUFFIXES = [('.k', 'class'), ('.k.l', 'classes'), ('-suffix', 'ident'), ('_x', 'ident'), ('x1', 'ident'), ('[k]', 'attr'),
             ('[k=v]', 'attr'), (':hover', 'pseudo-class'), (':nth-child(2)', 'pseudo-class'), (':not(.k)', 'pseudo-class'),
             ('#k', 'id')]
+
+
+PSEUDO_RE = re.compile(r':(not|is|where|has|matches)\(')
 
 
 def q(s):
@@ -88,6 +92,27 @@ def _gen_unify(rng, g):
     r = rng.random()
     m = rng.choice(a)
     how = 'random'
+    if r < 0.12:
+        # both operands carry a selector pseudo-class of the same name whose arguments are related (one list extends or
+        # specialises the other): the unification must keep the constraint of both
+        name = rng.choice(g.selpseudos)
+        l1 = [g.complex(1, maxlen=2) for _ in range(rng.choice([1, 1, 2]))]
+        l2 = list(l1)
+        if rng.random() < 0.5:
+            l2.append(g.complex(1, maxlen=2))
+        else:
+            k = rng.randrange(len(l2))
+            sp = sg.add_simple(rng, l2[k], g)
+            if sp:
+                l2[k] = sp[0]
+        if rng.random() < 0.5:
+            l1, l2 = l2, l1
+        base = tuple(sm for sm in g.compound(1) if sm[0] != 'pe')
+        extra = (g.cls(),) if rng.random() < 0.5 else ()
+        ca = base + (('pcsel:' + name, ':%s(%s)' % (name, sg.render_list(tuple(l1)))),)
+        cb = extra + (('pcsel:' + name, ':%s(%s)' % (name, sg.render_list(tuple(l2)))),)
+        pre = (g.compound(1), rng.choice([' ', '>'])) if rng.random() < 0.3 else ()
+        return {'op': 'unify', 'a': sg.render_list((pre + (ca,),)), 'b': sg.render_list(((cb,),)), 'how': 'related-pseudo-arguments'}
     if r < 0.3:
         b = no_pe(g.list(2), g)
     elif r < 0.55:
@@ -171,12 +196,18 @@ def gen_append(rng, g):
     suffix, kind = rng.choice(SUFFIXES)
     for _ in range(20):
         a = g.list(2)
+        if kind == 'ident':
+            # an identifier suffix continues the last simple selector as written: end every complex selector in a compound
+            # of type / id / class selectors only (in the order every Sass implementation prints them)
+            def tail():
+                t = ('type', rng.choice(g.types))
+                c1, c2 = ('class', '.' + g.classes[0]), ('class', '.' + rng.choice(g.classes[1:]))
+                return rng.choice([(t,), (c1,), (t, c1), (c1, c2), (('id', '#' + rng.choice(g.ids)),), (t, c2)])
+            a = tuple(cx[:-1] + (tail(),) for cx in a)
         ok = True
         for cx in a:
             last = sg.compounds(cx)[-1]
             if any(sm[0] == 'pe' for sm in last) or last[0][0] == 'univ':
-                ok = False
-            if kind == 'ident' and last[-1][0] not in ('type', 'class', 'id'):
                 ok = False
         if ok:
             return {'op': 'append', 'a': sg.render_list(a), 'b': suffix, 'suffix': kind}
@@ -219,6 +250,40 @@ def feats(*texts):
         if ', ' in t:
             f.add('list')
     return ','.join(sorted(f)) or 'plain'
+
+
+def selector_pseudos(text):
+    """[(name, full text)] of the top-level :not()/:is()/... pseudo-classes in a selector text."""
+    out, i = [], 0
+    while True:
+        m = PSEUDO_RE.search(text, i)
+        if not m:
+            return out
+        depth, j = 1, m.end()
+        while j < len(text) and depth:
+            depth += {'(': 1, ')': -1}.get(text[j], 0)
+            j += 1
+        out.append((m.group(1), text[m.start():j]))
+        i = j
+
+
+def narrow_unify(ctx, c):
+    """Is the failure explained by one pair of same-named selector pseudo-classes alone?  -> name or None"""
+    pa, pb = selector_pseudos(c['a']), selector_pseudos(c['b'])
+    pairs = sorted(set((na, ta, tb) for na, ta in pa for nb, tb in pb if na == nb and ta != tb))[:12]
+    if not pairs:
+        return None
+    vals = [read_value(r) for r in ev.evaluate_many(ctx, ['selector.unify(%s, %s)' % (q(ta), q(tb)) for _, ta, tb in pairs], chunk=12)]
+    calls, owner = [], []
+    for (name, ta, tb), v in zip(pairs, vals):
+        if v[0] == 'sel':
+            for r in css.split_top(v[1]):
+                for operand in (ta, tb):
+                    calls.append('selector.is-superselector(%s, %s)' % (q(operand), q(r)))
+                    owner.append((name, ta, tb, v[1]))
+    res = ev.evaluate_many(ctx, calls, chunk=24) if calls else []
+    bad = sorted(set(o for o, x in zip(owner, res) if x[0] == 'ok' and x[1] == 'false'))
+    return bad[0] if bad else None
 
 
 def check_cases(ctx, cases):
@@ -268,7 +333,7 @@ def check_cases(ctx, cases):
             if op == 'replace':
                 ctx.nontrivial(('replace', c['s'], c['x'], c['y']))
                 if cr != cs:
-                    ctx.violation('replace-without-match-changed-the-selector|%s' % feats(c['s']), c, {'result': v[1], 'expected': c['s']})
+                    ctx.violation('replace-without-match-changed-the-selector', c, {'result': v[1], 'expected': c['s'], 'features': feats(c['s'])})
             else:
                 if len(cr) > len(cs):
                     ctx.nontrivial(('extend', c['s'], c['x'], c['y']))
@@ -280,7 +345,7 @@ def check_cases(ctx, cases):
                 if missing:
                     lost_anywhere = [k for k in missing if cs[k] not in cr]
                     what = 'original-dropped' if lost_anywhere else 'originals-reordered'
-                    ctx.violation('extend-%s|%s' % (what, feats(c['s'], c['x'], c['y'])), c, {'result': v[1], 'missing-members-of-s': missing})
+                    ctx.violation('extend-%s' % what, c, {'result': v[1], 'missing-members-of-s': missing, 'features': feats(c['s'], c['x'], c['y'])})
         else:
             e = em.get(i)
             if e is None or e[0] == 'other':
@@ -301,7 +366,7 @@ def check_cases(ctx, cases):
             if cf is None or ce is None:
                 ctx.undecided('canonical-form', '%s / %s' % (v[1], e[1]))
             elif cf != ce:
-                ctx.violation('%s-differs-from-nested-rule|%s|%s' % (op, label, feats(c['a'], c['b'])), c, {'function': v[1], 'rule': e[1]})
+                ctx.violation('%s-differs-from-nested-rule|%s' % (op, label), c, {'function': v[1], 'rule': e[1], 'features': feats(c['a'], c['b'])})
     if sub:
         res = ev.evaluate_many(ctx, ['selector.is-superselector(%s, %s)' % (q(s), q(r)) for _, _, s, r in sub], chunk=40)
         ctx.ran(len(sub))
@@ -310,8 +375,14 @@ def check_cases(ctx, cases):
             if x[0] == 'ok' and x[1] == 'true':
                 ctx.stat('unify-member-is-subselector')
             elif x[0] == 'ok' and x[1] == 'false':
-                ctx.violation('unify-result-not-a-subselector|of-%s|%s' % (which, feats(c['a'], c['b'])), c,
-                              {'unify': vals[i][1], 'member': r, 'not-a-subselector-of': s})
+                detail = {'unify': vals[i][1], 'member': r, 'not-a-subselector-of': s}
+                hit = narrow_unify(ctx, c)
+                if hit:
+                    detail['minimal'] = {'a': hit[1], 'b': hit[2], 'unify': hit[3]}
+                    ctx.violation('unify-result-not-a-subselector|same-pseudo-class-in-both-operands:%s' % hit[0], c, detail)
+                else:
+                    detail['features'] = feats(c['a'], c['b'])
+                    ctx.violation('unify-result-not-a-subselector|of-%s-operand|%s' % (which, c.get('how', '?')), c, detail)
             elif x[0] == 'err':
                 ctx.stat('sub-oracle-error')
                 ctx.seen('error-messages', 'is-superselector: ' + x[1].split('\n')[0][:100])
